@@ -8,14 +8,14 @@ Section PIstep.
 Context (cs : amap pconf).
 Lemma PI_ordered s o th i s' : step_ordered_go s th i = Some s' -> PI_goal cs s o th (EOrderedGo i) s'.
 Proof.
-  intros H f f' HR Hf HO HT j x xo x' xo' Hx Hxo [Pa Pc Ps Pd Pl] Hx' Hxo'.
+  intros H f f' HR Hf HO HT j x xo x' xo' Hx Hxo [Pa Pc Pd Pl] Hx' Hxo'.
   pose proof (rc_th _ _ _ HR) as Hrth.
   kind_cases H; pi_leaf j s x.
 Qed.
 
 Lemma PI_env s o th e s' : step_env s th e = Some s' -> PI_goal cs s o th e s'.
 Proof.
-  intros H f f' HR Hf HO HT j x xo x' xo' Hx Hxo [Pa Pc Ps Pd Pl] Hx' Hxo'.
+  intros H f f' HR Hf HO HT j x xo x' xo' Hx Hxo [Pa Pc Pd Pl] Hx' Hxo'.
   pose proof (rc_th _ _ _ HR) as Hrth.
   destruct e; kind_cases H; pi_leaf j s x.
 Qed.
